@@ -36,14 +36,12 @@ Fixpoint extends (before now : list channel) : bool :=
 
 (* channel-list CFList: the first (at most five) custom channels whose data-rate
    range is the CFList range of the band, in table order, unused slots 0;
-   nothing is offered when there is no such channel (or its frequency is 0) *)
+   nothing is offered when there is no such channel with a frequency other than 0
+   (frequency 0 marks an unused slot) *)
 Definition spec_cflist_channels (mn mx : Z) (t : list channel) : option cflist :=
   let fs := map freq (firstn 5 (filter (fun c => custom c && (minDR c =? mn) && (maxDR c =? mx)) t)) in
-  match fs with
-  | [] => None
-  | 0 :: _ => None
-  | _ => Some (CFChannels (fs ++ repeat 0 (5 - length fs)))
-  end.
+  if forallb (fun f => f =? 0) fs then None
+  else Some (CFChannels (fs ++ repeat 0 (5 - length fs))).
 
 (* channel-mask CFList: bit j of mask k is exactly "channel 16k+j exists and is enabled" *)
 Definition spec_mask_bit (t : list channel) (i : nat) : bool :=
